@@ -255,6 +255,14 @@ impl crate::trace::Controller for Jitter {
     }
     fn woke(&self, _which: &'static str) {}
     fn bg_idle(&self) {}
+    fn on_event(&self, name: &'static str) {
+        // the IterDrop hook fires in the iterator's cleanup BEFORE it takes the mutex: a legal
+        // place for a delay as well (a version may be installed between whatever the cleanup
+        // looked at and its release of the view)
+        if name == "IterDrop" {
+            self.sched_point("iter_drop");
+        }
+    }
 }
 
 pub fn install_observer(root: &str, sink: &Arc<TraceSink>, contents: bool) {
